@@ -85,7 +85,17 @@ func (C12) Gen(r *simrt.RNG, tier string) core.Case {
 			op := world.Op{Kind: world.OpCall, Target: 0, Args: base, Thread: t}
 			switch r.Intn(8) {
 			case 0:
-				op = world.Op{Kind: world.OpConvert, Type: ty, Args: base, Thread: t}
+				// Convert, now and then to a type this process has not converted to before
+				// (whatever the library keeps per target type is then first written here)
+				cty := ty
+				if r.Bool() {
+					cty = r.Intn(world.IfaceBase + 3)
+				}
+				op = world.Op{Kind: world.OpConvert, Type: cty, Args: base, Thread: t}
+				if t > 0 && r.Bool() {
+					// and another thread converts as well
+					w.Ops = append(w.Ops, world.Op{Kind: world.OpConvert, Type: r.Intn(world.IfaceBase + 3), Args: base, Thread: t - 1})
+				}
 			case 1:
 				op = world.Op{Kind: world.OpRedefine, Target: 0, Args: base, Thread: t}
 			}
@@ -178,7 +188,9 @@ func (C12) Run(c core.Case, ctx *core.Ctx) []core.Violation {
 	}
 	var conc []pending
 	for k := 0; k < ctx.NumSchedules(); k++ {
-		if k%2 == 0 {
+		// the concurrent execution goes first: state the library keeps per process (were
+		// there any) is then first touched by racing threads, not by the sequential baseline
+		if k%2 == 1 {
 			rt, sim := execWorld(&seq, ctx, k)
 			if rt.InstErr != nil {
 				ctx.St.Inc("inst_rejected")
